@@ -5,6 +5,7 @@
 -/
 import Nervus.Proofs.CsrIncoming
 import Nervus.Model.Triggers
+import Nervus.Proofs.IterFlush
 namespace Nervus.Storage
 
 /-- no run holds a node or edge tombstone -/
@@ -102,7 +103,7 @@ theorem compact_neighbors (c : Cfg) (s : Engine) (h : NoTombs s.runs) (n : Nat) 
     | some l => exact Or.inr ⟨l, l, rfl, rfl, List.Perm.refl _⟩
   | false =>
     obtain ⟨h1, _, _, h4⟩ := compact_fields c s he
-    unfold Engine.neighbors
+    rw [neighbors_eq]; unfold Engine.neighborsFlushed
     rw [h1, h4, outRuns_noTombs n rel s.runs h]
     simp only [outRuns, List.contains_nil, Bool.false_eq_true, if_false]
     rw [mapM_cons_some, persist_neighbors, collect_noTombs _ _ h]
@@ -142,7 +143,7 @@ theorem compact_incoming (c : Cfg) (s : Engine) (h : NoTombs s.runs)
     | some l => exact Or.inr ⟨l, l, rfl, rfl, List.Perm.refl _⟩
   | false =>
     obtain ⟨h1, _, _, h4⟩ := compact_fields c s he
-    unfold Engine.incoming
+    rw [incoming_eq]; unfold Engine.incomingFlushed
     rw [h1, h4, inRuns_noTombs n rel s.runs h]
     simp only [inRuns, List.contains_nil, Bool.false_eq_true, if_false]
     rw [mapM_cons_some, collect_noTombs _ _ h]
